@@ -1731,14 +1731,18 @@ class _FormatInferInstance(Visitor):
         unresolvable.
 
         Looks up *e*'s active scope and returns the scope's context
-        when it's a concrete :class:`Context`.  Symbolic scopes are
-        substituted with :attr:`_outer_ctx` when the caller provided
-        one — this is how the recursive call-site instantiation flows
-        the caller's active context into the callee's outer scope."""
+        when it's a concrete :class:`Context`.  The function's own
+        symbolic scope is substituted with :attr:`_outer_ctx` when the
+        caller provided one — this is how the recursive call-site
+        instantiation flows the caller's active context into the callee's
+        outer scope.  A ``with`` block whose context is only known at run
+        time is not the caller's context, and stays unresolved."""
         scope = self.ctx_use.find_scope_from_use(e)
         if isinstance(scope.ctx, Context):
             return scope.ctx
-        return self._outer_ctx
+        if isinstance(scope.site, FuncDef):
+            return self._outer_ctx
+        return None
 
     def _scope_format(self, e: ContextUseSite) -> Format:
         """Returns the format of the rounding context scope for *e*.
